@@ -274,6 +274,10 @@ def check(prop, tier, seed, out):
             for P in programs[: (2 if tier == "quick" else len(programs))]:
                 exe = os.path.join(t2, "release" if release else "debug", P.crate)
                 judge_program(prop, P, exe, rng, "quick", out, agg, label)
+    if prop == "C12":
+        # registration from several threads at once (synthetic registries: the macros' constructors cannot be made to overlap)
+        from . import treecheck
+        treecheck.concurrent_use_slice(prop, tier, seed, out)
     out.extra["observed"] = agg
     out.extra["programs"] = nprog
     out.rule = ("randomly generated benchmark crates compiled through the attribute macros: module trees of depth <= 4, groups with and without custom names, "
